@@ -33,7 +33,7 @@ def run(ctx):
                                 n, ct, cv, '; every val_sz <= %d' % (cv - 1) if mode else '') + (' (24 = FIX8_MAX_FLD_LENGTH scaled from 2048)' if ct == 24 else ' (real MAX_MSGTYPE_FIELD_LEN)'),
                             desc='CBMC pointer/bounds/overflow checks + token grammar oracle', tier='quick'))
     codec.add_c03_objects(ctx, defs)
-    if os.environ.get('VF_C03_DATABOUND'): codec.add_c03_databound(ctx, defs)    # experimental (no verdict yet: the FLD=8 build of the decoder world runs out of memory), see DESIGN.md 9.4
+    codec.add_c03_databound(ctx, defs)
     ctx.assumptions += ['buffer capacities: callers pass char[FIX8_MAX_FLD_LENGTH] (scaled 2048 -> 24) or char[MAX_MSGTYPE_FIELD_LEN=32]; inputs longer than the capacity are part of the space',
                         'isdigit is the "C" locale classification', 'allocation never fails']
     ctx.solve(jobs=codec.JOBS)
